@@ -4,7 +4,7 @@
 jobs=${1:-3}
 cd "$(dirname "$0")/.."
 tmp=$(mktemp -d /tmp/seedmx.XXXXXX)
-ls seeded | grep -v RESULTS | while read s; do
+ls seeded | grep -v RESULTS | grep -v '^refactor-' | while read s; do
   p=$(python3 -c "import json;print(json.load(open('seeded/$s/meta.json'))['breaks_property'])"); echo "$s $p"
 done | xargs -P $jobs -L1 bash -c 'tools/try_mutant.sh seeded/$0/patch.diff $1 > '$tmp'/$0.txt 2>&1'
 {
@@ -12,13 +12,21 @@ echo "# Seeded changes against the current checks (written by tools/seed_matrix.
 echo
 echo "| seeded change | property | exit | failing input reported | last line of the check |"
 echo "|---|---|---|---|---|"
-for s in $(ls seeded | grep -v RESULTS); do
+for s in $(ls seeded | grep -v RESULTS | grep -v '^refactor-'); do
   p=$(python3 -c "import json;print(json.load(open('seeded/$s/meta.json'))['breaks_property'])")
   rc=$(grep -o "exit=[0-9]*" $tmp/$s.txt | head -1)
   nf=$(grep -c "no-failing-input-found" $tmp/$s.txt)
   v=$(grep -c "^VIOLATION" $tmp/$s.txt)
   fi="yes"; [ "$v" = 0 ] && fi="-"; [ "$nf" != 0 ] && fi="no (no-failing-input-found)"
   echo "| $s | $p | $rc | $fi | $(tail -1 $tmp/$s.txt | cut -c1-150) |"
+done
+echo
+echo "## Behaviour-preserving refactorings (expected: every check exits 0)"
+echo
+for s in $(ls seeded | grep '^refactor-'); do
+  echo '```'
+  tools/try_all.sh seeded/$s/patch.diff $jobs 2>&1 | grep -v '^WARNING' | cut -c1-170
+  echo '```'
 done
 } > seeded/RESULTS.md
 rm -rf $tmp
